@@ -39,3 +39,21 @@ package types
 //@ axiom[C18] evm_exp_count_step: forall has map[bytes]bool, val map[bytes]bytes, n int :: {evmExpCount(has, val, n + 1)} n >= 0 ==> evmExpCount(has, val, n + 1) == evmExpCount(has, val, n) + (evmIdxExported(has, val, n) ? 1 : 0)
 // the byte code stored under a code hash (no record: empty)
 //@ ghost func evmCodeOf(has map[bytes]bool, val map[bytes]bytes, h common.Hash) bytes = has[evmCodeKeyB(h)] ? val[evmCodeKeyB(h)] : bempty()
+
+// interfaces.go AccountKeeper — the x/auth account keeper behind the interface (app wiring: authkeeper.AccountKeeper). The
+// two methods x/evm genesis import calls through the INTERFACE value; same summaries as the concrete keeper's
+// (/verif/prelude/22_sdk_auth.spec GetAccount, /verif/prelude/4b_gen_evm_store.spec GetModuleAddress). ASSUMED (T3).
+//@ import sdk "github.com/cosmos/cosmos-sdk/types"
+//@ import context "context"
+//@ func (ak AccountKeeper) GetAccount(ctx context.Context, addr sdk.AccAddress) sdk.AccountI
+//@   assumed
+//@   requires typeof(ctx) == type(sdk.Context)
+//@   modifies nothing
+//@   ensures (result != nil) == acctExists[layer(unbox(ctx, type(sdk.Context)))][bytes(addr)]
+//@   ensures result != nil ==> (fresh(payload(result)) && accObjAddr[payload(result)] == bytes(addr) && accObjSeq[payload(result)] == acctSeq[layer(unbox(ctx, type(sdk.Context)))][bytes(addr)])
+//@   ensures result != nil ==> (payload(result) != nil && typeof(result) == acctTag[layer(unbox(ctx, type(sdk.Context)))][bytes(addr)] && accObjEndTime[payload(result)] == acctVestEnd[layer(unbox(ctx, type(sdk.Context)))][bytes(addr)])
+//@   panics never
+//@ func (ak AccountKeeper) GetModuleAddress(moduleName string) sdk.AccAddress
+//@   assumed
+//@   modifies nothing
+//@   panics never
